@@ -6,7 +6,7 @@ cd /repo || exit 2
 if ! git diff --quiet; then echo "/repo is dirty"; exit 2; fi
 git apply "$patch" || { echo "patch does not apply"; exit 2; }
 for p in "$@"; do
-  (cd /verif && ./check "$p" 2>&1 | grep -E "^check|VIOLATION|KNOWN-FINDING|TOOL-LIMIT|failing obligation" | cut -c1-260)
+  (cd /verif && VERIF_SCRATCH=1 ./check "$p" 2>&1 | grep -E "^check|VIOLATION|KNOWN-FINDING|TOOL-LIMIT|failing obligation" | cut -c1-260)
 done
 git -C /repo checkout -- .
 git -C /repo status --short | head -3
